@@ -18,7 +18,6 @@ func VerifDefaults() map[string]any {
 		"MetaContainerConstructor": defaultMetaContainerConstructor,
 		"MetaMustGetter":           defaultMetaMustGetter,
 		"ServiceGetter":            defaultServiceGetter,
-		"ServiceTodo":              defaultServiceTodo,
 	}
 }
 
